@@ -31,14 +31,44 @@
   The conditions are sufficient, not necessary: e.g. Bits(0) next to another never-written
   register is excluded although exchanging two blank registers is harmless.
 
-  `from_tk.make_units_adjacent` is modelled (Model/TkFrom.lean) and compared with the code on every
-  run (after fix F30), but only a bounded statement is proved about it (`from_tk_adjacent_upto6`, a
-  decided table).
-  Not modelled: pytket's own renaming and op semantics, the rest of `from_tk`, the backend path —
-  these rest on the oracle of the check.
+  The import `from_tk` is modelled one-for-one (Model/TkFrom.lean: the position model of
+  `make_units_adjacent`; Model/TkImport.lean: the whole function on circuit descriptions, with its
+  error behaviour) and compared with the code on every run.  Proved about it, for every width and
+  every command list:
+
+    `from_tk_adjacent`, `from_tk_adjacent_restores` — the swaps built for a gate on two different
+    units bring the two units, in order, to the returned offset, and the reversed swaps restore the
+    wire order (`from_tk_adjacent_upto6` is the older decided table); `from_tk_typed_swaps` — the
+    typed transcription builds exactly those swaps.
+    `from_tk_well_typed` — whenever the import returns a circuit, it is a well-typed chain from the
+    empty type to the codomain of the post-processing.
+    `from_tk_gates_on_named_units` — following wire identities through the imported circuit gives
+    the command list of the tket circuit: every gate acts on the ids of the units it names, a tket
+    SWAP exchanges two ids, every measurement into a bit that is not post-selected writes the bit
+    wire `n_qubits + (rank of the bit among the non-post-selected bits)`, measurements into
+    post-selected bits become `Bra`s on the measured position; `from_tk_bits_in_order` — before the
+    post-processing the bit wires leave in the order of the non-post-selected bits.
+    These have the hypothesis `importable`: supported one- and two-qubit ops on existing, different
+    qubits, parameters on the lattice of multiples of 1/8, measured bits of rank below `n_bits`;
+    `from_tk_importable` — it holds for every `wellFormed` input (measurements of existing qubits
+    into existing bits, post-selection keys distinct bits of the circuit).
+    `from_tk_total` — on such an input whose post-processing has `n_bits` inputs the import returns
+    a circuit; `from_tk_import_partial` puts the four together.
+    `make_units_adjacent` is wrong for three units (`from_tk_adjacent_three_units`), which no
+    supported op has.
+    `from_tk_postselection_deferred` — a decided witness of finding F33: the `Bra` of a post-selected
+    measurement comes after a gate that tket applies after the measurement.
+
+  NOT proved: `Tk.FromToRoundTrip` (importing the export of a circuit of the fragment gives the same
+  canonical wire-id command list) is stated in Model/TkImport.lean and kept as a `Prop`;
+  `round_trip_example` is one instance, the check evaluates it on every generated export.
+  Meaning (that the boxes compute what the tket ops compute, that a deferred post-selection is
+  harmless when `psFinal` holds) is not in the model: it rests on the oracle of the check.
+  Not modelled: pytket's own renaming, command order and op semantics, `Circuit.upgrade`, the
+  backend path — these rest on the oracle of the check.
 -/
 import Proofs.TkWitness
-import Model.TkFrom
+import Proofs.TkImportRank
 
 namespace DV.C13
 open DV DV.Tk
@@ -94,11 +124,120 @@ theorem override_after_pp_unspecified :
       canon wOverridePP = .error .notImpl :=
   ⟨Tk.wOverridePP_violation, Tk.wOverridePP_exported, Tk.wOverridePP_canon⟩
 
-/-! ### from_tk.make_units_adjacent (Model/TkFrom.lean): a bounded statement only -/
+/-! ### from_tk (Model/TkFrom.lean, Model/TkImport.lean) -/
+
+/-- **make_units_adjacent, every width**: for a gate on two different units `a`, `b` of an
+    `n`-wire circuit the swaps bring wire `a` to the returned offset and wire `b` right after it. -/
+theorem from_tk_adjacent (n a b : Nat) (ha : a < n) (hb : b < n) (hab : a ≠ b) :
+    ((arrangement n (makeUnitsAdjacent [a, b]).2).drop (makeUnitsAdjacent [a, b]).1).take 2 = [a, b] :=
+  Tk.makeUnitsAdjacent_adjacent n a b ha hb hab
+
+/-- … every swap lies inside the circuit, and the reversed swaps (`swaps[::-1]`, tk.py:335)
+    restore the wire order. -/
+theorem from_tk_adjacent_restores (n a b : Nat) (ha : a < n) (hb : b < n) :
+    (∀ o ∈ (makeUnitsAdjacent [a, b]).2, o + 1 < n) ∧
+      arrangement n ((makeUnitsAdjacent [a, b]).2 ++ (makeUnitsAdjacent [a, b]).2.reverse) = List.range n :=
+  ⟨Tk.makeUnitsAdjacent_inRange n a b ha hb, Tk.makeUnitsAdjacent_restores n a b ha hb⟩
+
+/-- The typed transcription of `make_units_adjacent` succeeds and builds the swaps of the position model. -/
+theorem from_tk_typed_swaps (units : List W) (a b : Nat) (ha : a < units.length) (hb : b < units.length)
+    (hab : a ≠ b) :
+    ∃ sw, makeUnitsAdjacentT units [a, b] = .ok ((makeUnitsAdjacent [a, b]).1, sw) ∧ sw.dom = units ∧
+      sw.layers.map (·.2) = (makeUnitsAdjacent [a, b]).2 :=
+  Tk.muaT_pair units a b ha hb hab
+
+/-- For three units the loop is wrong (it compares tket indices with positions that earlier
+    swaps have changed): `[2, 0, 1]` ends as `1, 0, 2`.  No supported op has three qubits —
+    `box_from_tk` raises before the swaps are built (`Controlled(CX)`: ValueError). -/
+theorem from_tk_adjacent_three_units :
+    ((arrangement 3 (makeUnitsAdjacent [2, 0, 1]).2).drop (makeUnitsAdjacent [2, 0, 1]).1).take 3 = [1, 0, 2] ∧
+      fromTk ⟨3, 0, [⟨"CCX", none, [2, 0, 1], []⟩], [], false, {}⟩ = .error .value := by decide
+
+/-- **The imported circuit is well-typed**: every box finds its domain at its offset, the scan
+    ends in the recorded codomain, the domain is empty and the codomain that of the post-processing. -/
+theorem from_tk_well_typed (inp : TkIn) (d : D) (hpp : inp.pp.WT) (h : fromTk inp = .ok d) :
+    wellTyped d.dom d.layers = true ∧ scanCod d.dom d.layers = d.cod ∧ d.dom = [] ∧
+      d.cod = List.replicate inp.pp.cod .b :=
+  ⟨(Tk.fromTk_WT hpp h).1.1, (Tk.fromTk_WT hpp h).1.2, (Tk.fromTk_WT hpp h).2.1, (Tk.fromTk_WT hpp h).2.2⟩
+
+/-- **Every gate is placed on the units tket names**: the commands read off the imported circuit
+    by following wire identities are those of the tket circuit (`ImpSpec.run`), and its `Bra`s are
+    the measurements into post-selected bits. -/
+theorem from_tk_gates_on_named_units (inp : TkIn) (d : D) (himp : inp.importable = true)
+    (h : fromTk inp = .ok d) :
+    (Tr.run d.layers).cmds = (ImpSpec.run inp).cmds ∧ (Tr.run d.layers).bras = (ImpSpec.run inp).braList inp :=
+  Tk.fromTk_trace himp h
+
+/-- **Measured bits land at the positions of the non-post-selected bits**: before the scalar and
+    the post-processing are attached the wires that leave are the bit wires `n_qubits + j` in the
+    order of `j` — and by `from_tk_gates_on_named_units` a `Measure` into the bit of rank `j` among
+    the non-post-selected ones writes exactly that wire. -/
+theorem from_tk_bits_in_order (inp : TkIn) (body : D) (himp : inp.importable = true)
+    (h : fromTkBody inp = .ok body) :
+    (Tr.run body.layers).arr = List.range' inp.nq inp.nbits ∧
+      (Tr.run body.layers).cmds = (ImpSpec.run inp).cmds := by
+  rw [Tk.fromTkBody_trace himp h]; exact ⟨rfl, rfl⟩
+
+/-- A well-formed tket circuit is importable: the rank of a measured bit among the
+    non-post-selected bits is below `n_bits` (tk.py:274, 323-324). -/
+theorem from_tk_importable (inp : TkIn) (h : inp.wellFormed = true) : inp.importable = true :=
+  Tk.importable_of_wellFormed h
+
+/-- **The import is defined** on every importable tket circuit whose post-processing has as many
+    inputs as there are non-post-selected bits (as `Circuit.upgrade` and `to_tk` make it). -/
+theorem from_tk_total (inp : TkIn) (himp : inp.importable = true) (hpp : inp.pp.dom = inp.nbits) :
+    ∃ d, fromTk inp = .ok d :=
+  Tk.fromTk_total himp hpp
+
+/-- The import of a well-formed tket circuit, all in one: it is defined, well-typed, every gate
+    sits on the units tket names, and its `Bra`s are the post-selected measurements. -/
+theorem from_tk_import_partial (inp : TkIn) (hwf : inp.wellFormed = true) (hpp : inp.pp.WT)
+    (hdom : inp.pp.dom = inp.nbits) :
+    ∃ d, fromTk inp = .ok d ∧ wellTyped [] d.layers = true ∧ scanCod [] d.layers = List.replicate inp.pp.cod .b ∧
+      (Tr.run d.layers).cmds = (ImpSpec.run inp).cmds ∧ (Tr.run d.layers).bras = (ImpSpec.run inp).braList inp := by
+  have himp := Tk.importable_of_wellFormed hwf
+  obtain ⟨d, hd⟩ := Tk.fromTk_total himp hdom
+  obtain ⟨⟨w1, w2⟩, hdm, hcd⟩ := Tk.fromTk_WT hpp hd
+  obtain ⟨t1, t2⟩ := Tk.fromTk_trace himp hd
+  rw [hdm] at w1 w2
+  exact ⟨d, hd, w1, by rw [w2, hcd], t1, t2⟩
+
+/-- `tk.Circuit(1, 1).H(0).Measure(0, 0).H(0).post_select({0: 0})`. -/
+def inF33 : TkIn := ⟨1, 1, [⟨"H", none, [0], []⟩, ⟨"Measure", none, [0], [0]⟩, ⟨"H", none, [0], []⟩], [(0, 0)], false, {}⟩
+
+/-- Finding F33: the post-selection of a measurement is moved behind the gates that follow it
+    (`Ket(0) >> H >> H >> Bra(0)`); `psFinal` is the condition under which that is harmless. -/
+theorem from_tk_postselection_deferred :
+    inF33.importable = true ∧ inF33.psFinal = false ∧
+      (fromTk inF33).toOption.map (·.layers) =
+        some [(.ket [0], 0), (.gate "H" 1, 0), (.gate "H" 1, 0), (.bra [0], 0)] := by decide
+
+/-- `tk.Circuit(3, 3).H(0).CX(2, 0).Measure(0, 2).SWAP(0, 2).Measure(1, 1).Rx(1/4, 2).CZ(0, 2).Measure(2, 0)
+    .post_select({1: 1})`: distant units in both directions, a SWAP, a post-selected bit between two measured ones. -/
+def inEx : TkIn := ⟨3, 3, [⟨"H", none, [0], []⟩, ⟨"CX", none, [2, 0], []⟩, ⟨"Measure", none, [0], [2]⟩,
+  ⟨"SWAP", none, [0, 2], []⟩, ⟨"Measure", none, [1], [1]⟩, ⟨"Rx", some 4, [2], []⟩, ⟨"CZ", none, [0, 2], []⟩,
+  ⟨"Measure", none, [2], [0]⟩], [(1, 1)], false, ⟨2, 2, []⟩⟩
+
+example : inEx.wellFormed = true ∧ inEx.importable = true ∧ inEx.psFinal = true ∧ isOk (fromTk inEx) = true ∧
+    inEx.pp.dom = inEx.nbits := by decide
+
+example : inEx.pp.WT := by simp [PP.WT, D.WT, PP.toD, inEx, wellTyped, scanCod]
+
+/-- The hypotheses of the import theorems are met by it: the SWAP exchanged the ids 0 and 2, the
+    measurement into bit 2 (rank 1) writes wire 3 + 1, the one into bit 0 writes wire 3 + 0. -/
+example : (ImpSpec.run inEx).cmds = [⟨"H", none, [0], []⟩, ⟨"CX", none, [2, 0], []⟩, ⟨"Measure", none, [0], [4]⟩,
+    ⟨"Rx", some 4, [0], []⟩, ⟨"CZ", none, [2, 0], []⟩, ⟨"Measure", none, [0], [3]⟩] ∧
+    (ImpSpec.run inEx).braList inEx = [(1, 1)] := by decide
+
+example : ∃ d, fromTk inEx = .ok d ∧ (Tr.run d.layers).cmds = (ImpSpec.run inEx).cmds := by
+  have hok : isOk (fromTk inEx) = true := by decide
+  cases h : fromTk inEx with
+  | error e => rw [h] at hok; cases hok
+  | ok d => exact ⟨d, rfl, (from_tk_gates_on_named_units inEx d (by decide) h).1⟩
 
 /-- On up to 6 wires the swaps bring the units of every two-unit gate to consecutive positions at
     the returned offset (30 ordered pairs; e.g. `CX(0, 3)` on 4 wires: arrangement 0, 3, 1, 2).
-    The general statement for every width is not proved. -/
+    Superseded by `from_tk_adjacent`; kept as a table. -/
 theorem from_tk_adjacent_upto6 :
     pairsWhere 6 false = [] ∧ (pairsWhere 6 true).length = 30 ∧
       arrangement 4 (makeUnitsAdjacent [0, 3]).2 = [0, 3, 1, 2] := by decide
@@ -147,5 +286,38 @@ example : exF26.clean = true ∧ (toTk exF26).toOption.map (·.cmds) =
     some [⟨"X", none, [0], []⟩, ⟨"Measure", none, [0], [0]⟩, ⟨"X", none, [1], []⟩,
           ⟨"Measure", none, [1], [1]⟩] := by decide
 example : exF28.clean = true ∧ (toTk exF28).toOption.map (·.ps) = some [(0, 0)] := by decide
+
+/-- One instance of the round-trip statement `Tk.FromToRoundTrip` (which is NOT proved): `ex1`. -/
+theorem round_trip_example : RoundTripOn ex1 false := by
+  intro st d hst hd
+  have e1 : toTk ex1 = .ok ⟨3, 3, [], [0, 1],
+      [⟨"X", none, [1], []⟩, ⟨"CX", none, [1, 2], []⟩, ⟨"X", none, [0], []⟩, ⟨"Rx", some 6, [1], []⟩,
+       ⟨"Measure", none, [1], [1]⟩, ⟨"Measure", none, [2], [0]⟩, ⟨"Measure", none, [0], [2]⟩],
+      [(2, 0)], [], ⟨2, 1, [(.gate "XOR" 2 1, 0)]⟩⟩ := by decide
+  rw [e1] at hst
+  cases hst
+  have e2 : fromTk (St.toIn ⟨3, 3, [], [0, 1],
+      [⟨"X", none, [1], []⟩, ⟨"CX", none, [1, 2], []⟩, ⟨"X", none, [0], []⟩, ⟨"Rx", some 6, [1], []⟩,
+       ⟨"Measure", none, [1], [1]⟩, ⟨"Measure", none, [2], [0]⟩, ⟨"Measure", none, [0], [2]⟩],
+      [(2, 0)], [], ⟨2, 1, [(.gate "XOR" 2 1, 0)]⟩⟩ false) = .ok ⟨[], [.b],
+      [(.ket [0], 0), (.ket [0], 1), (.ket [0], 2), (.bits [0] false, 3), (.bits [0] false, 4),
+       (.gate "X" 1, 1), (.gate "CX" 2, 1), (.gate "X" 1, 0), (.rot "Rx" 3, 1), (.swap .b .b, 3),
+       (.swap .q .b, 2), (.measure 1 false true, 1), (.swap .b .q, 2), (.swap .b .b, 3),
+       (.measure 1 false true, 2), (.bra [0], 0), (.discard [.q], 0), (.discard [.q], 0),
+       (.cgate "XOR" 2 1, 0)]⟩ := by decide
+  rw [e2] at hd
+  cases hd
+  refine ⟨⟨3, 3, [], [.out 0 0],
+      [⟨"X", none, [0], []⟩, ⟨"CX", none, [0, 1], []⟩, ⟨"X", none, [2], []⟩, ⟨"Rx", some 6, [0], []⟩,
+       ⟨"Measure", none, [0], [0]⟩, ⟨"Measure", none, [1], [1]⟩, ⟨"Measure", none, [2], [2]⟩],
+      [(2, 0)], [], [("XOR", [.reg 1, .reg 0])]⟩,
+    ⟨3, 3, [], [.out 0 0],
+      [⟨"X", none, [1], []⟩, ⟨"CX", none, [1, 2], []⟩, ⟨"X", none, [0], []⟩, ⟨"Rx", some 6, [1], []⟩,
+       ⟨"Measure", none, [1], [1]⟩, ⟨"Measure", none, [2], [0]⟩, ⟨"Measure", none, [0], [2]⟩],
+      [(2, 0)], [], [("XOR", [.reg 0, .reg 1])]⟩,
+    fun i => if i = 0 then 1 else if i = 1 then 2 else 0,
+    fun i => if i = 0 then 1 else if i = 1 then 0 else 2, by decide, by decide, ?_⟩
+  exact ⟨⟨fun a ha => by grind, fun a b ha hb h => by grind⟩, ⟨fun a ha => by grind, fun a b ha hb h => by grind⟩,
+    by decide, by decide, by decide, by decide, by decide⟩
 
 end DV.C13
